@@ -176,6 +176,20 @@ def _consumer_kind_of(prog, fn, k, stack):
 
 
 _owning = set()
+_owning_typed = set()
+
+
+def _holder_type(fn, mem):
+    """Normalised type of the object whose field is accessed by `mem` (const / pointer / struct keywords removed)."""
+    b = fn.resolve(strip(mem.get("b")))
+    t = b.get("t", "") if isinstance(b, dict) else ""
+    return t.replace("const ", "").replace("struct ", "").replace("*", "").strip()
+
+
+def owns_field(prog, fn, mem):
+    """Is the field accessed by `mem` released by the destructor of its holder's type?"""
+    owning_fields(prog)
+    return (_holder_type(fn, mem), mem["f"]) in _owning_typed
 
 
 def owning_fields(prog):
@@ -196,6 +210,7 @@ def owning_fields(prog):
                 a = fn.resolve(strip(a["e"] if a["k"] == "cast" else a["b"]))
             if isinstance(a, dict) and a.get("k") == "mem":
                 _owning.add(a["f"])
+                _owning_typed.add((_holder_type(fn, a), a["f"]))
             elif isinstance(a, dict) and a.get("k") == "var" and a.get("s") == "local":
                 # a local copy of a field:  p = x->f; ...; free(p)
                 for d in fn.defs_at(b, i, a["n"]):
@@ -208,6 +223,7 @@ def owning_fields(prog):
                         rhs = fn.resolve(strip(rhs["e"]))
                     if isinstance(rhs, dict) and rhs.get("k") == "mem":
                         _owning.add(rhs["f"])
+                        _owning_typed.add((_holder_type(fn, rhs), rhs["f"]))
     _owning.add("__done__")
     return _owning
 
@@ -1178,3 +1194,75 @@ def caller_releases(prog, fn, k):
                     if x in [p["n"] for p in g.params]:
                         out += caller_releases(prog, g, [p["n"] for p in g.params].index(x))
     return sorted(set(out))
+
+
+# ------------------------------------------------------------------------ borrowed value stored into an owning field
+CONDITIONALLY_OWNED = {"ptr": "KSI_TlvElement.ptr is released only when ptr_own is set; pointing it at foreign bytes before a detach is the idiom"}
+
+
+def borrowed_into_owning_field(prog, fn, stats=None):
+    """`A->f = v` where f is a field some destructor releases and v is only *borrowed* here (read from another object's field that stays
+    set, or handed out by a borrowing getter) and no reference is taken: two owners for one object, the second release is a use after
+    free.  Plain parameter stores (setters take ownership by contract) and stores back into the object the value came from are not
+    reported.  [(block, idx, target key, source text, why)]"""
+    out = []
+    params = {p["n"] for p in fn.params}
+    for b, i, n in fn.nodes():
+        if n.get("k") != "asg" or n["op"] != "=":
+            continue
+        l = strip(n["l"])
+        if l.get("k") != "mem" or l["f"] not in owning_fields(prog) or not owns_field(prog, fn, l):
+            continue
+        if l["f"] in CONDITIONALLY_OWNED:
+            continue
+        if stats is not None:
+            stats["stores"] = stats.get("stores", 0) + 1
+        r = fn.resolve(strip(n["r"]))
+        g = 0
+        while isinstance(r, dict) and r.get("k") == "cast" and g < 4:
+            g += 1
+            r = fn.resolve(strip(r["e"]))
+        if not isinstance(r, dict) or is_null(r) or r.get("k") in ("int", "call", "cond"):
+            continue
+        lk = lvalue_key(l, fn) or ""
+        why = None
+        if r.get("k") == "mem":
+            rk = lvalue_key(r, fn) or ""
+            if not rk or rk.split("->")[0] == lk.split("->")[0]:
+                continue
+            kinds = _value_kinds(prog, fn, b, i, r, ())
+            if kinds == {"borrow"}:
+                why = "read from %s, which keeps pointing to the object" % rk
+        elif r.get("k") == "var" and r.get("s") == "local":
+            kinds = _value_kinds(prog, fn, b, i, r, ())
+            if kinds == {"borrow"}:
+                # where does the local come from?  only getter results / field reads count, not parameters or aliases of them
+                srcs = []
+                for d in fn.defs_at(b, i, r["n"]):
+                    if d[0] == "param":
+                        srcs.append("param")
+                        continue
+                    v, kind, node = fn.def_info(d)
+                    if kind == "out":
+                        call, ai = node
+                        gname = call.get("fn") or ""
+                        # X_getF(obj, &v) followed by X_setF(obj, NULL): the object is moved out of its holder, not borrowed
+                        sname = gname.replace("_get", "_set", 1)
+                        moved = any(is_null(fn.resolve(strip(c2["a"][1]))) for b2, i2, c2 in fn.calls({sname}) if len(c2["a"]) > 1) if sname != gname else False
+                        srcs.append("moved" if moved else "getter %s" % gname)
+                    elif kind in ("asg", "init"):
+                        rhs = fn.resolve(strip(node.get("r") if kind == "asg" else node.get("init")))
+                        if isinstance(rhs, dict) and rhs.get("k") == "mem":
+                            srcs.append("field %s" % lvalue_key(rhs, fn))
+                        elif is_null(rhs):
+                            continue
+                        else:
+                            srcs.append("other")
+                    else:
+                        srcs.append("other")
+                if srcs and all(s.startswith("getter") or s.startswith("field") for s in srcs):
+                    # the local must not be nulled-at-source / released here, and must not be handed over elsewhere
+                    why = "%s only borrows it (%s)" % (r["n"], ", ".join(sorted(set(srcs))))
+        if why:
+            out.append((b, i, lk, show(r, fn), why))
+    return out
